@@ -1091,7 +1091,12 @@ func checkC19(w *World, c *Check, tier string) {
 					if !isStore {
 						continue
 					}
-					if ia, isIdx := x.Addr.(*ssa.IndexAddr); isIdx {
+					ia, isIdx := x.Addr.(*ssa.IndexAddr)
+					if fa, isFA := x.Addr.(*ssa.FieldAddr); isFA && !isIdx {
+						// a field of an entry: list[k].Value = v
+						ia, isIdx = fa.X.(*ssa.IndexAddr)
+					}
+					if isIdx {
 						if _, local := ia.X.(*ssa.Alloc); local {
 							continue // the temporary array of a variadic call
 						}
